@@ -209,8 +209,7 @@ static void case_words(uint64_t idx)
 static void state_value(const ops_t *o, const ascon_masked_state_t *ms, uint8_t out[40])
 {
     ascon_state_t x1;
-    ascon_init(&x1);
-    o->copy_to_x1(&x1, ms);
+    o->copy_to_x1(&x1, ms);       /* initialises (acquires) the destination itself */
     ascon_extract_bytes(&x1, out, 0, 40);
     ascon_free(&x1);
 }
